@@ -172,6 +172,7 @@ static int bn_param_eq(EVP_PKEY *a, EVP_PKEY *b, const char *param)
 #define MISMATCH(name) do { if (nmis < 16) mis[nmis++] = (name); } while (0)
 
 static unsigned long n_okp_lz;
+static unsigned long n_oct_special, n_after_poison;
 int main(int argc, char **argv)
 {
 	vh_args_t a;
@@ -192,6 +193,13 @@ int main(int argc, char **argv)
 		spec = specs[(size_t)idx / (size_t)a.nshards % nspec];
 		if (!strcmp(spec, "oct")) { snprintf(specbuf, sizeof(specbuf), "oct:%d", 1 + (int)vh_below(&rng, 512)); spec = specbuf; }
 		if (vh_key_gen(&k, spec, &rng)) vh_harness_fail("keygen %s", spec);
+		if (k.kind == VH_K_OCT && (idx & 2)) {
+			/* every second oct key: a first and/or last octet that text handling might strip or stop at (NUL, line ends, blank, '=', quote...) */
+			static const unsigned char SP[] = { 0x00, 0x0a, 0x0d, 0x20, 0x3d, 0x2e, 0xff, 0x5c, 0x22, 0x7f, 0x80, 0x09 };
+			k.oct[k.octlen - 1] = SP[vh_below(&rng, sizeof(SP))];
+			if (vh_below(&rng, 3) == 0) k.oct[0] = SP[vh_below(&rng, sizeof(SP))];
+			n_oct_special++;
+		}
 		if (k.kind == VH_K_OKP && (idx & 1)) {
 			/* every second OKP key: one whose raw private or public octet string starts with 0x00 (octet strings, not integers) */
 			for (int tries = 0; tries < 5000; tries++) {
@@ -217,10 +225,33 @@ int main(int argc, char **argv)
 			nmis = 0;
 			vh_case_begin(idx, "\"key\":\"%s\",\"var\":%d,\"priv\":%d,\"pad\":%d", spec, var, priv, pad);
 			vh_set_prov((int)vh_below(&rng, 2));
-			set = jwks_create(jwk);
-			it = set ? jwks_item_get(set, 0) : NULL;
+			/* a third of the imports: the key is the second element of a set whose first element is a well-formed JWK that the crypto
+			 * library refuses (off-curve point, unknown curve, garbage modulus, short OKP octet string): what that leaves behind in
+			 * the provider (error queue, context) must not reach the key that follows */
+			{
+				static const char *POISON[] = {
+					"{\"kty\":\"EC\",\"crv\":\"P-256\",\"x\":\"AQIDBAUGBwgJCgsMDQ4PEBESExQVFhcYGRobHB0eHyA\",\"y\":\"ICEiIyQlJicoKSorLC0uLzAxMjM0NTY3ODk6Ozw9Pj8\"}",
+					"{\"kty\":\"EC\",\"crv\":\"P-999\",\"x\":\"AQID\",\"y\":\"BAUG\"}",
+					"{\"kty\":\"RSA\",\"n\":\"AAAA\",\"e\":\"AQAB\"}",
+					"{\"kty\":\"OKP\",\"crv\":\"Ed25519\",\"x\":\"AQID\"}",
+					"{\"kty\":\"EC\",\"crv\":\"P-384\",\"x\":\"AA\",\"y\":\"AA\",\"d\":\"AA\"}",
+					"{\"kty\":\"RSA\",\"n\":\"AQAB\",\"e\":\"AQAB\",\"d\":\"AQAB\",\"p\":\"Aw\",\"q\":\"BQ\",\"dp\":\"AQ\",\"dq\":\"AQ\",\"qi\":\"AQ\"}" };
+				int second = (var % 3) == 2;
+				if (second) {
+					size_t cap = strlen(jwk) + 600;
+					char *doc = malloc(cap);
+					snprintf(doc, cap, "{\"keys\":[%s,%s]}", POISON[(idx + var) % 6], jwk);
+					set = jwks_create(doc);
+					free(doc);
+					it = set && jwks_item_count(set) == 2 ? jwks_item_get(set, 1) : NULL;
+					n_after_poison++;
+				} else {
+					set = jwks_create(jwk);
+					it = set && jwks_item_count(set) == 1 ? jwks_item_get(set, 0) : NULL;
+				}
+			}
 			nchecked++;
-			if (!it || jwks_item_count(set) != 1) MISMATCH("no-item");
+			if (!it) MISMATCH("no-item");
 			else if (jwks_item_error(it)) MISMATCH("import-error");
 			else {
 				int want_kty = k.kind == VH_K_OCT ? JWK_KEY_TYPE_OCT : k.kind == VH_K_EC ? JWK_KEY_TYPE_EC : k.kind == VH_K_OKP ? JWK_KEY_TYPE_OKP : JWK_KEY_TYPE_RSA;
@@ -295,5 +326,6 @@ int main(int argc, char **argv)
 	}
 	printf("[\"STATS\",%lu]\n", nchecked);
 	printf("[\"OKPLZ\",%lu]\n", n_okp_lz);
+	printf("[\"EXTRA\",%lu,%lu]\n", n_oct_special, n_after_poison);
 	return 0;
 }
